@@ -16,7 +16,30 @@ package model
 // whose terminator fails ("doomed" subtrees) leave no trace whatever gas they get, so they - and
 // only they - may be starved with arbitrary allotments; the reference does not look inside.
 
+//
+// Native contracts (0x01..0x08) are frames without code of their own: the frame succeeds iff the
+// gas it is given covers the contract's price for this input AND the contract accepts the input;
+// then the value stays where the CALL moved it and the output is the contract's. Otherwise the
+// frame fails like any other: the value transfer and the creation of the callee's account are
+// undone and all gas handed to the frame is consumed. Price and function value of a native
+// contract are obtained through C16PrecompileGas / C16PrecompileRun (pure functions of the
+// input, installed by the harness); frame semantics never come from there. The gas such a frame
+// gets is known EXACTLY when the allotment is an explicit non-zero constant (the reference demands
+// that the caller can afford it many times over, so no cap applies) plus the 2300 stipend of a
+// value-bearing CALL/CALLCODE; for the other allotment modes (and for a zero gas operand, which
+// go-youchain's callGas serves with 2300) only a lower bound is known and a price above it makes
+// the program gas uncertain.
+
 const C16ActionGas = 250000
+
+const C16CallStipend = 2300
+
+// C16PrecompileGas returns the price of native contract n (1..8) for input; C16PrecompileRun its
+// output and whether it accepts the input. Both are pure functions installed by the harness.
+var (
+	C16PrecompileGas func(n int, input []byte) uint64
+	C16PrecompileRun func(n int, input []byte) (out []byte, ok bool)
+)
 
 type C16Acct struct {
 	Nonce    uint64
@@ -82,7 +105,7 @@ func (s *C16State) get(a C16Addr) *C16Acct {
 	return ac
 }
 
-// C16Identity is the only precompile the generator uses as a call target.
+// C16Identity is the identity precompile.
 var C16Identity = C16Addr{19: 4}
 
 type C16TxResult struct {
@@ -92,6 +115,11 @@ type C16TxResult struct {
 	Post      *C16State // after finalisation (self-destructed and empty accounts removed)
 	Burnt     uint64    // value destroyed by this transaction
 	Uncertain bool      // the gas lower bound could not guarantee the predicted outcome
+	// FailedValueCalls: callees of value-bearing CALLs whose frame failed in a frame the reference
+	// evaluated (the value must be back with the caller)
+	FailedValueCalls map[C16Addr]int
+	// FailedCreates: addresses of creation frames that failed in a frame the reference evaluated
+	FailedCreates map[C16Addr]int
 }
 
 type c16sim struct {
@@ -102,6 +130,17 @@ type c16sim struct {
 	burnt     uint64
 	Stats     map[string]int
 	Addrs     map[C16Addr]bool
+	ret       []byte // output of the last call-kind invocation (empty after a failure of a literal target)
+	cur       *C16Tx // the transaction being executed
+	pcFail    string // why the native contract entered last failed
+	failedVal map[C16Addr]int
+	failedCre map[C16Addr]int
+}
+
+// c16call: what a call-kind invocation hands to the callee besides value and gas.
+type c16call struct {
+	input []byte
+	exact bool // the gas figure is exact, not a lower bound
 }
 
 func (s *c16sim) note(a C16Addr) { s.Addrs[a] = true }
@@ -130,6 +169,11 @@ func (s *c16sim) selfdestruct(ctx, benef C16Addr) {
 }
 
 func (s *c16sim) runStub(stub *C16Stub, ctx C16Addr, static bool, a uint64) (bool, uint64) {
+	if stub.Kind == C16StubZeros {
+		// STOP: succeeds with any gas, in any context
+		s.Stats["stub_zeros"]++
+		return true, a
+	}
 	if a < C16ActionGas {
 		s.uncertain = true
 		return false, 0
@@ -157,19 +201,42 @@ func (s *c16sim) runStub(stub *C16Stub, ctx C16Addr, static bool, a uint64) (boo
 
 // runCode executes whatever code lives at codeAddr on account ctx. node is the frame selected by
 // the calldata (nil: no calldata).
-func (s *c16sim) runCode(codeAddr C16Addr, node *C16Frame, ctx C16Addr, static bool, a uint64) (bool, uint64) {
+func (s *c16sim) runCode(codeAddr C16Addr, node *C16Frame, ctx C16Addr, static bool, a uint64, cd c16call) (bool, uint64) {
 	ac := s.st.Accts[codeAddr]
-	if codeAddr == C16Identity {
-		// identity precompile on empty input: 15 gas. The generator offers either far too little (< 15,
-		// no stipend) or plenty, so the outcome does not depend on how an allotment is computed.
-		if a < 15 {
-			s.Stats["precompile_call_failed_out_of_gas"]++
+	if n := C16PrecompileIndex(codeAddr); n > 0 {
+		// a native contract runs wherever the code of its address is executed (CALL, CALLCODE,
+		// DELEGATECALL, STATICCALL); it touches no state, so the context does not matter
+		if C16PrecompileGas == nil || C16PrecompileRun == nil {
+			s.uncertain = true
 			return false, 0
 		}
-		if a < 2300 {
-			s.uncertain = true
+		need := C16PrecompileGas(n, cd.input)
+		if a < need {
+			if !cd.exact {
+				// only a lower bound of the allotment is known: the outcome depends on the allotment rules
+				s.uncertain = true
+			}
+			s.Stats["precompile_call_failed_out_of_gas"]++
+			s.Stats["precompile_"+C16PrecompileNames[n]+"_failed_out_of_gas"]++
+			s.pcFail = "out_of_gas"
+			return false, 0
 		}
-		return true, a - min64(a, 1000)
+		out, ok := C16PrecompileRun(n, cd.input)
+		if !ok {
+			s.Stats["precompile_call_failed_input_rejected"]++
+			s.Stats["precompile_"+C16PrecompileNames[n]+"_failed_input_rejected"]++
+			s.pcFail = "input_rejected"
+			return false, 0
+		}
+		if cd.exact && a-need < C16CallStipend && a >= C16CallStipend {
+			s.Stats["precompile_call_succeeded_thanks_to_stipend_or_by_less_than_2300"]++
+		}
+		s.Stats["precompile_"+C16PrecompileNames[n]+"_ok"]++
+		if len(out) > 0 {
+			s.Stats["precompile_call_ok_with_output"]++
+		}
+		s.ret = append([]byte(nil), out...)
+		return true, a - need
 	}
 	if ac == nil || len(ac.Code) == 0 {
 		return true, a
@@ -219,20 +286,63 @@ func allot(inv *C16Inv, L uint64) (a, r uint64) {
 	return a, L - a
 }
 
-func (s *c16sim) target(inv *C16Inv, created []C16Addr) C16Addr {
+func (s *c16sim) target(inv *C16Inv, created []C16Addr, ctx C16Addr) C16Addr {
 	switch inv.Tgt {
 	case C16TgtNode:
 		return s.p.Hosts[inv.Node.Host]
 	case C16TgtCreated:
 		return created[inv.Ref]
+	case C16TgtSelf:
+		return ctx
 	}
 	return inv.Addr
 }
 
+// tgtClass names the kind of callee as the state stands when the call is made.
+func (s *c16sim) tgtClass(tgt, ctx C16Addr) string {
+	if C16PrecompileIndex(tgt) > 0 {
+		return "precompile"
+	}
+	ac := s.st.Accts[tgt]
+	switch {
+	case tgt == ctx:
+		return "self"
+	case ac == nil:
+		return "nonexistent"
+	case ac.Suicided:
+		return "selfdestructed"
+	case len(ac.Code) > 0:
+		return "contract"
+	case ac.Empty():
+		return "empty"
+	case ac.Nonce > 0:
+		return "eoa"
+	}
+	return "codeless_funded"
+}
+
+// C16CallKey: the counter key of a call-kind invocation, shared by the reference and the tracer.
+func C16CallKey(kind int, class string, value bool, outcome string) string {
+	k := "calls_to_" + class
+	switch kind {
+	case C16KCallCode:
+		k = "callcodes_to_" + class
+	case C16KDelegate:
+		return "delegatecalls_to_" + class + "_" + outcome
+	case C16KStatic:
+		return "staticcalls_to_" + class + "_" + outcome
+	}
+	if value {
+		return k + "_with_value_" + outcome
+	}
+	return k + "_without_value_" + outcome
+}
+
 // invoke performs one child invocation of a frame running on ctx. abort: the invoking frame itself
 // halts exceptionally (write attempt in a static context).
-func (s *c16sim) invoke(inv *C16Inv, ctx C16Addr, static bool, created []C16Addr, L uint64) (flag bool, newAddr C16Addr, abort bool, Lout uint64) {
+func (s *c16sim) invoke(inv *C16Inv, ctx C16Addr, static bool, created []C16Addr, L uint64, mem *[]byte) (flag bool, newAddr C16Addr, abort bool, Lout uint64) {
 	me := s.st.get(ctx)
+	s.ret = nil
 	if inv.Kind >= C16KCreate {
 		if static {
 			s.Stats["static_violation"]++
@@ -258,14 +368,27 @@ func (s *c16sim) invoke(inv *C16Inv, ctx C16Addr, static bool, created []C16Addr
 		}
 		return true, addr, false, r + rem
 	}
-	tgt := s.target(inv, created)
+	tgt := s.target(inv, created, ctx)
 	s.note(tgt)
+	// the call data of a literal target: the head of the frame's input staging area
+	var cd c16call
+	if len(inv.Input) > 0 || inv.InSize > 0 {
+		if len(*mem) < len(inv.Input) {
+			*mem = append(*mem, make([]byte, len(inv.Input)-len(*mem))...)
+		}
+		copy(*mem, inv.Input)
+		cd.input = make([]byte, inv.InSize)
+		copy(cd.input, *mem)
+	}
 	if inv.Kind == C16KCall && static && inv.Value > 0 {
 		s.Stats["static_violation"]++
 		return false, newAddr, true, 0
 	}
+	class := s.tgtClass(tgt, ctx)
+	hasValue := inv.Value > 0 && (inv.Kind == C16KCall || inv.Kind == C16KCallCode)
 	if (inv.Kind == C16KCall || inv.Kind == C16KCallCode) && inv.Value > me.Bal {
 		s.Stats["insufficient_balance"]++
+		s.Stats[C16CallKey(inv.Kind, class, hasValue, "refused")]++
 		return false, newAddr, false, L
 	}
 	if inv.GasMode == C16GConst && L < inv.GasConst+C16ActionGas {
@@ -274,18 +397,55 @@ func (s *c16sim) invoke(inv *C16Inv, ctx C16Addr, static bool, created []C16Addr
 		return false, newAddr, true, 0
 	}
 	a, r := allot(inv, L)
-	if inv.Value > 0 && (inv.Kind == C16KCall || inv.Kind == C16KCallCode) {
-		a += 2300 // call stipend
+	// an explicit non-zero constant that the caller can afford many times over is handed on unchanged
+	// (what a ZERO gas operand is served with is left to the implementation: go-youchain hands on, and
+	// charges, 2300)
+	cd.exact = inv.GasMode == C16GConst && inv.GasConst > 0 && a == inv.GasConst
+	if hasValue {
+		a += C16CallStipend
 	}
 	var node *C16Frame
 	if inv.Tgt == C16TgtNode {
 		node = inv.Node
 	}
-	ok, rem := s.doCall(inv.Kind, tgt, node, inv.Value, ctx, static, a)
+	ok, rem := s.doCall(inv.Kind, tgt, node, inv.Value, ctx, static, a, cd)
+	if s.uncertain {
+		return ok, newAddr, false, r + rem
+	}
+	if !ok || class != "precompile" {
+		// (the code-less accounts, dispatchers entered without a selector and runtime stubs that the other
+		// literal targets lead to return nothing)
+		s.ret = nil
+	}
+	outcome := "ok"
+	if !ok {
+		outcome = "failed"
+		if inv.Kind == C16KCall && inv.Value > 0 {
+			s.failedVal[tgt]++
+		}
+	}
+	if !(node != nil && node.Doomed) {
+		// (what happens inside a doomed subtree is not predicted, only that it fails)
+		s.Stats[C16CallKey(inv.Kind, class, hasValue, outcome)]++
+		if class == "precompile" && !ok {
+			s.Stats[C16CallKey(inv.Kind, class, hasValue, "failed_"+s.pcFail)]++
+		}
+		if class == "precompile" && !ok && inv.Kind == C16KCall {
+			v := ""
+			if hasValue {
+				v = "_with_value"
+			}
+			if s.st.Accts[tgt] == nil {
+				s.Stats["failed_calls"+v+"_to_precompile_leaving_it_nonexistent"]++
+			} else {
+				s.Stats["failed_calls"+v+"_to_precompile_leaving_existing_account_unchanged"]++
+			}
+		}
+	}
 	return ok, newAddr, false, r + rem
 }
 
-func (s *c16sim) doCall(kind int, tgt C16Addr, node *C16Frame, value uint64, ctx C16Addr, static bool, a uint64) (bool, uint64) {
+func (s *c16sim) doCall(kind int, tgt C16Addr, node *C16Frame, value uint64, ctx C16Addr, static bool, a uint64, cd c16call) (bool, uint64) {
 	snap := s.st.Copy()
 	burnt := s.burnt
 	cctx := ctx
@@ -302,7 +462,7 @@ func (s *c16sim) doCall(kind int, tgt C16Addr, node *C16Frame, value uint64, ctx
 		cctx = tgt
 		static = true
 	}
-	ok, rem := s.runCode(tgt, node, cctx, static, a)
+	ok, rem := s.runCode(tgt, node, cctx, static, a, cd)
 	if !ok {
 		s.st = snap
 		s.burnt = burnt
@@ -338,25 +498,58 @@ func (s *c16sim) doCreate(addr C16Addr, node *C16Frame, value uint64, ctx C16Add
 	} else {
 		ok, rem = s.runFrame(node, addr, false, true, a)
 	}
+	if ok && s.cur != nil && s.cur.Boundary == node && s.cur.BoundaryFails {
+		// the constructor completed but what is left does not pay for the code deposit: the frame fails
+		// like any other (everything undone, all its gas consumed; the Homestead rule)
+		ok, rem = false, 0
+		s.Stats["creates_failing_at_code_deposit"]++
+	}
+	if ok && node.Term == C16TReturn && node.Stub != nil && len(C16StubCode(node.Stub)) > C16MaxCodeSize {
+		// EIP-170: the frame fails, everything undone, all its gas consumed
+		ok, rem = false, 0
+		s.Stats["creates_failing_code_too_large"]++
+	}
 	if ok && node.Term == C16TReturn && node.Stub != nil {
 		ac := s.st.get(addr)
 		ac.Code = C16StubCode(node.Stub)
 		ac.Stub = node.Stub
-		if rem < C16ActionGas {
-			s.uncertain = true
+		if !node.Tight {
+			dep := uint64(C16ActionGas)
+			if d := uint64(200 * len(ac.Code)); d > C16ActionGas/2 {
+				dep += d
+				s.Stats["creates_depositing_large_code"]++
+			}
+			if rem < dep {
+				s.uncertain = true
+			}
+			rem -= min64(rem, dep)
 		}
-		rem -= min64(rem, C16ActionGas)
+		if s.cur != nil && s.cur.Boundary == node {
+			s.Stats["creates_with_code_deposit_just_paid"]++
+		}
 	}
 	if !ok {
 		s.st = snap
 		s.burnt = burnt
 		s.Stats["frames_reverted_by_reference"]++
+		s.failedCre[addr]++
 	}
 	return ok, rem
 }
 
+// runFrame: a Tight frame runs on gas sized by dry runs; the reference trusts that it is enough for the
+// frame to reach its terminator and promises the caller nothing back.
 func (s *c16sim) runFrame(f *C16Frame, ctx C16Addr, static bool, isCreate bool, L uint64) (bool, uint64) {
+	if f.Tight {
+		ok, _ := s.runFrame0(f, ctx, static, isCreate, 1<<60)
+		return ok, 0
+	}
+	return s.runFrame0(f, ctx, static, isCreate, L)
+}
+
+func (s *c16sim) runFrame0(f *C16Frame, ctx C16Addr, static bool, isCreate bool, L uint64) (bool, uint64) {
 	var created []C16Addr
+	var mem []byte // the input staging area of this frame execution
 	s.Stats["frames_simulated"]++
 	for i := range f.Actions {
 		act := &f.Actions[i]
@@ -386,13 +579,19 @@ func (s *c16sim) runFrame(f *C16Frame, ctx C16Addr, static bool, isCreate bool, 
 			s.st.Logs = append(s.st.Logs, lg)
 		case C16AInvoke:
 			inv := act.Inv
-			flag, addr, abort, l2 := s.invoke(inv, ctx, static, created, L)
+			flag, addr, abort, l2 := s.invoke(inv, ctx, static, created, L, &mem)
 			L = l2
 			if abort {
 				return false, 0
 			}
+			ret := s.ret
 			if inv.Kind >= C16KCreate {
 				created = append(created, addr)
+				if s.cur != nil && s.cur.Boundary == inv.Node && s.cur.CreatorDies {
+					// (calibrated gas) nothing is left for the instruction after the creation
+					s.Stats["creators_out_of_gas_right_after_the_boundary_creation"]++
+					return false, 0
+				}
 			}
 			if inv.Policy != C16PIgnore {
 				if L < C16ActionGas {
@@ -427,6 +626,25 @@ func (s *c16sim) runFrame(f *C16Frame, ctx C16Addr, static bool, isCreate bool, 
 					return false, L
 				}
 			}
+			if inv.OutRec {
+				if L < C16ActionGas {
+					s.uncertain = true
+					return false, 0
+				}
+				L -= C16ActionGas
+				if static {
+					s.Stats["static_violation"]++
+					return false, 0
+				}
+				var w C16Word
+				copy(w[:], ret)
+				s.store(ctx, inv.OutSlot, w)
+				s.store(ctx, inv.OutSlot+1, C16WordOf(uint64(len(ret))+1))
+				s.Stats["outputs_recorded"]++
+				if len(ret) > 0 {
+					s.Stats["outputs_recorded_nonempty"]++
+				}
+			}
 		}
 	}
 	if L < C16ActionGas {
@@ -457,7 +675,7 @@ type C16Sim struct {
 }
 
 func NewC16Sim(p *C16Program, pre *C16State) *C16Sim {
-	return &C16Sim{s: &c16sim{p: p, st: pre.Copy(), Stats: map[string]int{}, Addrs: map[C16Addr]bool{}}}
+	return &C16Sim{s: &c16sim{p: p, st: pre.Copy(), Stats: map[string]int{}, Addrs: map[C16Addr]bool{}, failedVal: map[C16Addr]int{}, failedCre: map[C16Addr]int{}}}
 }
 
 // Emulate switches on the emulation of the known defect (used only to ATTRIBUTE a deviation from the
@@ -486,6 +704,9 @@ func (m *C16Sim) Tx(i int) *C16TxResult {
 	s.uncertain = false
 	s.burnt = 0
 	s.st.Logs = nil
+	s.failedVal = map[C16Addr]int{}
+	s.failedCre = map[C16Addr]int{}
+	s.cur = tx
 	res := &C16TxResult{}
 	origin := s.p.Origin
 	s.note(origin)
@@ -493,7 +714,25 @@ func (m *C16Sim) Tx(i int) *C16TxResult {
 		res.Uncertain = true
 		return res
 	}
-	if tx.Create {
+	if tx.Direct != nil {
+		// a literal callee at top level: exactly tx.Gas, no stipend (that is the CALL instruction's)
+		tgt := tx.Direct.Addr
+		s.note(tgt)
+		class := s.tgtClass(tgt, origin)
+		ok, _ := s.doCall(C16KCall, tgt, nil, tx.Value, origin, false, tx.Gas, c16call{input: tx.Direct.CallData(), exact: true})
+		res.OK = ok
+		outcome := "ok"
+		if !ok {
+			outcome = "failed"
+			if tx.Value > 0 {
+				s.failedVal[tgt]++
+			}
+			if class == "precompile" {
+				s.Stats["toplevel_"+C16CallKey(C16KCall, class, tx.Value > 0, "failed_"+s.pcFail)]++
+			}
+		}
+		s.Stats["toplevel_"+C16CallKey(C16KCall, class, tx.Value > 0, outcome)]++
+	} else if tx.Create {
 		me := s.st.get(origin)
 		nonce := me.Nonce
 		me.Nonce++
@@ -507,10 +746,12 @@ func (m *C16Sim) Tx(i int) *C16TxResult {
 	} else {
 		tgt := s.p.Hosts[tx.Root.Host]
 		s.note(tgt)
-		ok, _ := s.doCall(C16KCall, tgt, tx.Root, tx.Value, origin, false, tx.Gas)
+		ok, _ := s.doCall(C16KCall, tgt, tx.Root, tx.Value, origin, false, tx.Gas, c16call{})
 		res.OK = ok
 	}
 	res.Uncertain = s.uncertain
+	res.FailedValueCalls = s.failedVal
+	res.FailedCreates = s.failedCre
 	res.Pre = s.st.Copy()
 	// finalisation: self-destructed accounts disappear with whatever they hold, empty accounts are dropped
 	for a, ac := range s.st.Accts {
